@@ -20,6 +20,7 @@ package store
 
 import (
 	"encoding/json"
+	"errors"
 	"fmt"
 	"github.com/nuts-foundation/go-did/vc"
 	"gorm.io/gorm"
@@ -71,6 +72,9 @@ func (c CredentialStore) Store(db *gorm.DB, credential vc.VerifiableCredential) 
 	subjectDID, err := credential.SubjectDID()
 	if err != nil {
 		return nil, fmt.Errorf("failed to extract subject DID: %w", err)
+	}
+	if credential.ID == nil {
+		return nil, errors.New("credential has no ID")
 	}
 	// Base properties
 	newCredential := CredentialRecord{
